@@ -422,7 +422,7 @@ pub fn drive(prop: &dyn Prop, cfg: &DriverCfg) -> Report {
           Some(k) => { *kf_matched.entry(k.id.clone()).or_insert(0) += 1; }
           None => {
             witness_n += 1;
-            if witness_n <= 200 {
+            if witness_n <= 3000 {
               let path = format!("{}/w{:04}.json", replay_dir, witness_n);
               let w = json!({"property": pid, "flavour": fl, "tier": cfg.tier.name(), "seed": cfg.seed, "case": c, "class": o.class, "detail": o.detail});
               std::fs::write(&path, serde_json::to_string_pretty(&w).unwrap()).unwrap();
